@@ -434,5 +434,6 @@ ManifestOnlyAfterClose == TRUE
 Term == <>[](Quiescent)
 
 View == <<pendRem, pendReg, analyzed, pkgDir, pkgMeta, resolved, deprec, vcache, poisoned, closed, mu,
-          pc, cur, diagsErr, phase, todo, wDeps, wVers, wSrc, wFetch, edges, faults, nFetch, nVers, nSrc, nAn, addHist>>
+          pc, cur, diagsErr, phase, todo, wDeps, wVers, wSrc, wFetch, edges, faults, nFetch, nVers, nSrc, nAn, addHist,
+          IF Concurrent THEN sched ELSE <<>>>>      \* every interleaving is a behaviour of its own when callers run concurrently
 =============================================================================
